@@ -28,6 +28,7 @@ PROGRAMS = {
     'include_missing': 'a:\naddi x1, x0, K\ninclude gone.asm',
     'included': 'a:\ninclude inc/part.asm\nj a',
     'ok_only': 'a:\nb:\naddi x1, x0, 5\nc:\nli x6, K',
+    'nolabels': 'addi x1, x0, 5\nli x6, K\ndw 7',
 }
 INC = {'/proj/src/inc/part.asm': 'part:\naddi x3, x0, K\ndw part'}
 
